@@ -147,7 +147,7 @@ def obligations(tier):
     # ---- (1) descriptor kinds
     for key in H.KIND_REPS:
         obs.append(Ob(f'C05.kind.{key}', 'harness.C05', 'kind_roundtrip', bind={'key': key}, timeout=60 if quick else 300,
-                      functions=F_COMMON, stubs=STUBS,
+                      functions=F_COMMON, stubs=STUBS, twin=(not quick or key.endswith('.0')),
                       bounds=f'{H.describe_kind(key)}; symbolic: presence bit, str s0,s1 (len <= 3, any characters, may be empty), '
                              'int n0 in [0, 99999], bool b0, selector q0 < 4 (enum member / pool value / nested sample), list length < 3',
                       claim='update_xml_value then update_from_node on a fresh instance gives back the value (absent -> implied / '
@@ -184,6 +184,9 @@ def obligations(tier):
                                      f'outside the window: {"absent / empty" if bg == 0 else "all present (concrete)"}; {plan}',
                               claim='from_node(as_node(x)) equals x member-wise; absent members read back as implied/default (also per '
                                     'XSD documentation) and not as the shared class-level object; as_node(from_node(as_node(x))) == as_node(x)'))
+    only = os.environ.get('VERIF_ONLY')      # development aid: run only obligations whose id contains this text
+    if only:
+        obs = [o for o in obs if only in o.id]
     return obs
 
 
